@@ -142,3 +142,30 @@ pub fn mutate(r: &mut Rng, data: &[u8], other: Option<&[u8]>) -> (String, Vec<u8
         }
     }
 }
+
+/// the repository's own sample streams (real compressor output, 0.2-1 MB): (name, bytes) of the idx-th
+/// `samples/*.deflate` file in name order, None if the directory is not there
+pub fn repo_sample(idx: u64) -> Option<(String, Vec<u8>)> {
+    let mut names: Vec<String> = std::fs::read_dir("/repo/samples")
+        .ok()?
+        .filter_map(|e| e.ok())
+        .map(|e| e.file_name().to_string_lossy().to_string())
+        .filter(|n| n.ends_with(".deflate"))
+        .collect();
+    names.sort();
+    if names.is_empty() {
+        return None;
+    }
+    let n = &names[(idx as usize) % names.len()];
+    let b = std::fs::read(format!("/repo/samples/{}", n)).ok()?;
+    if b.is_empty() {
+        return None;
+    }
+    Some((n.clone(), b))
+}
+
+pub fn repo_sample_count() -> u64 {
+    std::fs::read_dir("/repo/samples")
+        .map(|d| d.filter_map(|e| e.ok()).filter(|e| e.file_name().to_string_lossy().ends_with(".deflate")).count() as u64)
+        .unwrap_or(0)
+}
